@@ -122,12 +122,13 @@ Fixpoint type_of (te : tenv) (e : expr) : option vtype :=
       | _ => None
       end
   | EIndex a _ =>
+      match a with EConcat _ => Some (PBits 1, []) | _ =>      (* { ... }[i] : bit select of a concatenation *)
       match type_of te a with
       | Some (t, _ :: ds) => Some (t, ds)
       | Some (PArr _ t, []) => Some (t, [])
       | Some (_, []) => Some (PBits 1, [])
       | None => None
-      end
+      end end
   | ERange a hi lo => match type_of te a with Some (_, []) => Some (PBits (hi - lo + 1), []) | _ => None end
   | EPlusRange a _ w => match type_of te a with Some (_, []) => Some (PBits w, []) | _ => None end
   | _ => None
@@ -200,7 +201,11 @@ Fixpoint eval (te : tenv) (en : env) (W : Z) (e : expr) {struct e} : Z :=
   | ENum v => tr W (tr 32 v)
   | EId x => tr W (read_bits en (ref_id te x))
   | EMember a f => tr W (read_bits en (ref_member (resolve te en a) f))
-  | EIndex a i => tr W (read_bits en (ref_index (resolve te en a) (eval te en (selfw te i) i)))
+  | EIndex a i =>
+      match a with
+      | EConcat _ => tr W (shr (selfw te a) (eval te en (selfw te a) a) (eval te en (selfw te i) i) mod 2)
+      | _ => tr W (read_bits en (ref_index (resolve te en a) (eval te en (selfw te i) i)))
+      end
   | ERange a hi lo => tr W (read_bits en (ref_range (resolve te en a) hi lo))
   | EPlusRange a b w => tr W (read_bits en (ref_plus (resolve te en a) (eval te en (selfw te b) b) w))
   | EConcat es =>
@@ -246,7 +251,11 @@ Fixpoint eval_sd (te : tenv) (en : env) (e : expr) {struct e} : Z :=
   | ENum v => tr W (tr 32 v)
   | EId x => tr W (read_bits en (ref_id te x))
   | EMember a f => tr W (read_bits en (ref_member (resolve_sd te en a) f))
-  | EIndex a i => tr W (read_bits en (ref_index (resolve_sd te en a) (eval_sd te en i)))
+  | EIndex a i =>
+      match a with
+      | EConcat _ => tr W (shr (selfw te a) (eval_sd te en a) (eval_sd te en i) mod 2)
+      | _ => tr W (read_bits en (ref_index (resolve_sd te en a) (eval_sd te en i)))
+      end
   | ERange a hi lo => tr W (read_bits en (ref_range (resolve_sd te en a) hi lo))
   | EPlusRange a b w => tr W (read_bits en (ref_plus (resolve_sd te en a) (eval_sd te en b) w))
   | EConcat es =>
